@@ -1,12 +1,14 @@
 //! vh_pix — C21/C20/C18: native frames, RLE Lossless decoding, encapsulation
 //! (dicom-pixeldata, dicom-encoding, dicom-core fragments, transfer-syntax-registry adapters).
 mod obj;
+mod c20;
 mod c21;
 use vhc::*;
 
 fn main() {
     run_main(
         |prop, ctx| match prop {
+            "C20" => Some(c20::cases(ctx)),
             "C21" => Some(c21::cases(ctx)),
             _ => None,
         },
